@@ -413,7 +413,7 @@ def run_replay(ck, path, ext):
             plan, hx = o.split(" ")
             a = common.run_model(["mlwenc %s %s" % (plan, csv(seq))])[0]
             print("Lean writer model:", a[:300])
-            bad = (hx if hx != "-" else "") != real or a != "ok planok=1 " + (hx or "-")
+            bad = (hx if hx != "-" else "") != real or a != "ok planok=1 fits=1 " + (hx or "-")
         print("replay:", "REPRODUCED" if bad else "not reproduced (model, observer and extension agree on this input now)")
         sys.exit(1 if bad else 0)
     if isinstance(rp.get("job"), dict):
@@ -706,11 +706,17 @@ def main():
                              f"(length {len(seq)})", dict(rp, observer_stream_hex=shim_hex[:4096]), found_input=False)
                 continue
             a = lean_out[k]
-            m = re.match(r"(ok|err:\w+) planok=([01])(?: (\S+))?$", a)
+            m = re.match(r"(ok|err:\w+) planok=([01])(?: fits=([01]) (\S+))?$", a)
             if not m:
                 raise InfraError("unexpected answer of mlwenc: " + a[:200])
             planok = m.group(2) == "1"
-            model_hex = None if m.group(1) != "ok" else ("" if m.group(3) == "-" else m.group(3))
+            model_hex = None if m.group(1) != "ok" else ("" if m.group(4) == "-" else m.group(4))
+            if model_hex == real_hex:
+                wm["max_stream_bytes_per_buffer_byte"] = max(wm.get("max_stream_bytes_per_buffer_byte", 0.0),
+                                                             round(len(real_hex) / 2 / (2 * len(seq) + 1024), 4))
+                if m.group(3) == "0":
+                    ck.violation(f"the stream of a sequence of length {len(seq)} ({len(real_hex) // 2} bytes) is longer than the encoder's output "
+                                 f"buffer inbuf_size*2+1024: bitbuf_putbit wrote past the allocation", dict(rp, plan=plan[:3000]))
             wm["plan_ok"] += planok
             wm["bytes_equal"] += model_hex == real_hex
             if not spec_ok:
